@@ -267,7 +267,7 @@ def search(ctx, disagreements):
     for d in disagreements[:20]:
         if 'case' in d:
             cases.append(('dis', es.case_from_json(d['case'])))
-    cases += gen_cases(r, 240)
+    cases += gen_cases(r, 120)
     results = run_all(cases, ctx.repo)
     for (tag, case), result in zip(cases, results):
         for v in property_on_impl(case, result):
